@@ -894,10 +894,16 @@ class Gen:
                     d.stream(ST["memory_list"], d.list([d.u64(b) + d.u32(min(z, 64), blob) for b, z in ivs]))
                     d.stream(ST["module_list"], d.list([d.module(b, z, name) for b, z in ivs]))
                     d.stream(ST["memory_info"], d.exlist([d.u64(b, b) + d.u32(4, 0) + d.u64(z) + d.u32(0x1000, 4, 0x20000, 0) for b, z in ivs], 48, hdr=16, wide=True))
-                    d.stream(ST["thread_list"], d.list([d.thread([1, 2, 1, 3, 2, 1, 0xffffffff, 0][(i + pi) % 8], teb=b) for i, (b, z) in enumerate(ivs)]))
+                    # stacks: none readable at parse time except every fourth; start_of_memory_range inside / at the end of / just past the interval (the stack_memory fallback)
+                    d.stream(ST["thread_list"], d.list([d.thread([1, 2, 1, 3, 2, 1, 0xffffffff, 0][(i + pi) % 8],
+                                                                 stack=((b + [0, z // 2, max(z, 1) - 1, z][(i + pi) % 4]) % T64, 8 if i % 4 == 3 else [0, 8][i % 2], blob if i % 4 == 3 else 0), teb=b)
+                                                        for i, (b, z) in enumerate(ivs)]))
                     hdr_at = len(d.buf) + (-len(d.buf)) % 4
                     data_at = hdr_at + 16 + 16 * len(ivs)
-                    d.stream(ST["memory64"], d.u64(len(ivs), data_at) + b"".join(d.u64(b, z) for b, z in ivs))
+                    # get_memory prefers a Memory64 list that parses: present / absent / present but rejected (one byte short), so that both lists serve as the unified list
+                    if (pi + bi) % 3 != 1:
+                        m64 = d.u64(len(ivs), data_at) + b"".join(d.u64(b, z) for b, z in ivs)
+                        d.stream(ST["memory64"], m64, size=len(m64) - (1 if (pi + bi) % 3 == 2 and pi % 2 else 0))
                     d.add(bytes((3 * i) & 0xff for i in range(sum(z for _, z in ivs))), align=1)
                     self.dump("lookup_product", d.finish())
 
